@@ -185,12 +185,14 @@ def install_probes():
                 if len(toks) > rec.max_tokens:
                     rec.max_tokens = len(toks)
                 dig = rec.dig(toks)
+                sq = reftok.digest((''.join(''.join(toks).split()), ))
             except Exception:
-                dig = None
+                dig = sq = None
             c = {
                 'idx': len(rec.checks),
                 'actor': actor,
                 'dig': dig,
+                'sq': sq,
                 'seq0': rec.seq(),
                 't0': S.clock,
                 'inv': [],
